@@ -252,6 +252,9 @@ def _multiclass_binned_precision_recall_curve_update_memory(
     This version is recommended for CPU in all cases, and for GPU if memory usage is more critical than time.
     """
     _multiclass_precision_recall_curve_update_input_check(input, target, num_classes)
+    # labels index the class dimension and give the counts their dtype below: a uint8 label tensor
+    # would be read as a mask, and a narrow integer dtype would wrap the counts
+    target = target.long()
 
     num_samples, num_classes = tuple(input.shape)
     num_thresholds = len(threshold)
